@@ -2618,10 +2618,14 @@ class SQLiteDialect(default.DefaultDialect):
         constraint_name = None
         table_data = self._get_table_sql(connection, table_name, schema=schema)
         if table_data:
-            PK_PATTERN = r'CONSTRAINT\s+(?:"(.+?)"|(\w+))\s+PRIMARY\s+KEY'
+            PK_PATTERN = (
+                r'CONSTRAINT\s+(?:"((?:[^"]|"")+)"|(\w+))\s+PRIMARY\s+KEY'
+            )
             result = re.search(PK_PATTERN, table_data, re.I)
             if result:
-                constraint_name = result.group(1) or result.group(2)
+                constraint_name = self._unescape_quoted_name(
+                    result.group(1)
+                ) or result.group(2)
             else:
                 constraint_name = None
 
@@ -2723,9 +2727,10 @@ class SQLiteDialect(default.DefaultDialect):
             # so parsing the columns is really about matching it up to what
             # we already have.
             FK_PATTERN = (
-                r'(?:CONSTRAINT\s+(?:"(.+?)"|(\w+))\s+)?'
+                r'(?:CONSTRAINT\s+(?:"((?:[^"]|"")+)"|(\w+))\s+)?'
                 r"FOREIGN\s+KEY\s*\(\s*(.+?)\s*\)\s+"
-                r'REFERENCES\s+(?:(?:"(.+?)")|([a-z0-9_]+))\s*\(\s*((?:(?:"[^"]+"|[a-z0-9_]+)\s*(?:,\s*)?)+)\)\s*'  # noqa: E501
+                r'REFERENCES\s+(?:(?:"((?:[^"]|"")+)")|([a-z0-9_]+))\s*'
+                r'\(\s*((?:(?:"(?:[^"]|"")+"|[a-z0-9_]+)\s*(?:,\s*)?)+)\)\s*'
                 r"((?:ON\s+(?:DELETE|UPDATE)\s+"
                 r"(?:SET\s+NULL|SET\s+DEFAULT|CASCADE|RESTRICT|"
                 r"NO\s+ACTION)\s*)*)"
@@ -2744,7 +2749,10 @@ class SQLiteDialect(default.DefaultDialect):
                     deferrable,
                     initially,
                 ) = match.group(1, 2, 3, 4, 5, 6, 7, 8, 9)
-                constraint_name = constraint_quoted_name or constraint_name
+                constraint_name = (
+                    self._unescape_quoted_name(constraint_quoted_name)
+                    or constraint_name
+                )
                 constrained_columns = list(
                     self._find_cols_in_sig(constrained_columns)
                 )
@@ -2754,7 +2762,10 @@ class SQLiteDialect(default.DefaultDialect):
                     referred_columns = list(
                         self._find_cols_in_sig(referred_columns)
                     )
-                referred_name = referred_quoted_name or referred_name
+                referred_name = (
+                    self._unescape_quoted_name(referred_quoted_name)
+                    or referred_name
+                )
                 options = {}
 
                 # a newline may separate the words of an
@@ -2816,9 +2827,20 @@ class SQLiteDialect(default.DefaultDialect):
         else:
             return ReflectionDefaults.foreign_keys()
 
+    def _unescape_quoted_name(self, name):
+        # a name matched between double quotes has an embedded quote
+        # doubled, as written by IdentifierPreparer.quote_identifier()
+        if name:
+            name = self.identifier_preparer._unescape_identifier(name)
+        return name
+
     def _find_cols_in_sig(self, sig):
-        for match in re.finditer(r'(?:"(.+?)")|([a-z0-9_]+)', sig, re.I):
-            yield match.group(1) or match.group(2)
+        for match in re.finditer(
+            r'(?:"((?:[^"]|"")+)")|([a-z0-9_]+)', sig, re.I
+        ):
+            yield (
+                self._unescape_quoted_name(match.group(1)) or match.group(2)
+            )
 
     @reflection.cache
     def get_unique_constraints(
@@ -2846,16 +2868,17 @@ class SQLiteDialect(default.DefaultDialect):
             if table_data is None:
                 return
             UNIQUE_PATTERN = (
-                r'(?:CONSTRAINT\s+(?:"(.+?)"|(\w+))\s+)?UNIQUE\s*\((.+?)\)'
+                r'(?:CONSTRAINT\s+(?:"((?:[^"]|"")+)"|(\w+))\s+)?'
+                r"UNIQUE\s*\((.+?)\)"
             )
             INLINE_UNIQUE_PATTERN = (
-                r'(?:(".+?")|(?:[\[`])?([a-z0-9_]+)(?:[\]`])?)[\t ]'
+                r'(?:("(?:[^"]|"")+")|(?:[\[`])?([a-z0-9_]+)(?:[\]`])?)[\t ]'
                 r"+[a-z0-9_]+(?:[\t ]+[a-z0-9_]+)*?[\t ]+UNIQUE"
             )
 
             for match in re.finditer(UNIQUE_PATTERN, table_data, re.I):
                 quoted_name, unquoted_name, cols = match.group(1, 2, 3)
-                name = quoted_name or unquoted_name
+                name = self._unescape_quoted_name(quoted_name) or unquoted_name
                 yield name, list(self._find_cols_in_sig(cols))
 
             # we need to match inlines as well, as we seek to differentiate
@@ -2925,18 +2948,27 @@ class SQLiteDialect(default.DefaultDialect):
         )
         cks = []
 
+        def unquote(m):
+            # strip the surrounding quotes and restore a quote character
+            # that is doubled inside of the name; SQLite has no such escape
+            # within brackets
+            if m.group(2):
+                return m.group(2).replace(m.group(1) * 2, m.group(1))
+            else:
+                return m.group(3)
+
         for match in re.finditer(CHECK_PATTERN, table_data or ""):
             constraint_name = match.group(1)
 
             if constraint_name:
                 # Remove surrounding quotes if present
-                # Double quotes: "name" -> name
-                # Single quotes: 'name' -> name
+                # Double quotes: "name" -> name, "na""me" -> na"me
+                # Single quotes: 'name' -> name, 'na''me' -> na'me
                 # Brackets: [name] -> name
-                # Backticks: `name` -> name
+                # Backticks: `name` -> name, `na``me` -> na`me
                 constraint_name = re.sub(
                     r'^(["\'`])(.+)\1$|^\[(.+)\]$',
-                    lambda m: m.group(2) or m.group(3),
+                    unquote,
                     constraint_name,
                     flags=re.DOTALL,
                 )
